@@ -12,6 +12,7 @@ KwSets == {S \in SUBSET {1, 2, 3, 4, 5, 6} : Cardinality(S) <= MaxKwSubset}
 Calls == {[npos |-> p, kws |-> S] : p \in 0..4, S \in KwSets}
 Init == /\ sig \in {x \in Sigs : x.ndef <= Len(x.pos)}
         /\ \/ mode = "plain" /\ arg = 0 /\ call \in Calls
+           \/ mode \in {"expect", "expect_default"} /\ arg = 7 /\ call \in {c \in Calls : c.npos = 0 /\ c.kws = {}}
            \/ mode = "inject" /\ arg \in SeqSet(sig.pos) \cup KwoNames(sig) /\ call \in {c \in Calls : c.npos <= 3 /\ Cardinality(c.kws) <= 1 /\ arg \notin c.kws}
 Next == UNCHANGED vars
 Spec == Init /\ [][Next]_vars
@@ -22,7 +23,8 @@ Seen == LET b == Bind(WSig, call) IN
         ELSE [b EXCEPT !.args = SortSeq(b.args \o << <<arg, 70 + arg>> >>, LAMBDA x, y : x[1] < y[1])]
 SortedArgs(b) == IF b.ok THEN [b EXCEPT !.args = SortSeq(b.args, LAMBDA x, y : x[1] < y[1])] ELSE b
 (* laws on the reference itself *)
-Laws == /\ (mode = "inject" => /\ Len(Params(WSig)) = Len(Params(sig)) - 1
+Laws == /\ (mode \in {"expect", "expect_default"} => ExpectOK(sig, Params(Expect(sig, 7, mode = "expect_default")), 7, mode = "expect_default"))
+        /\ (mode = "inject" => /\ Len(Params(WSig)) = Len(Params(sig)) - 1
                                /\ \A i \in 1..Len(Params(WSig)) : \E j \in 1..Len(Params(sig)) : Params(WSig)[i] = Params(sig)[j])
         /\ (Bind(WSig, call).ok => Cardinality({Bind(WSig, call).args[i][1] : i \in 1..Len(Bind(WSig, call).args)}) = Len(Bind(WSig, call).args))
 Emit == PrintT(<<"T", ToJson([mode |-> mode, arg |-> arg, sig |-> sig, wparams |-> Params(WSig),
